@@ -216,6 +216,25 @@ def check_conversion(ctx, W, S0, plan, final_seq, agents, validate, ops):
         cur = nxt
     if not interp.state_eq(cur, final_seq):
         raise Violation("C15/final-state-differs", site, interp.state_diff(cur, final_seq))
+    # ---- two caller threads convert the same plan, each with its own converter and its own agent order, sharing the
+    # domain and problem objects: each must get what it gets alone
+    if not fixture and ctx.s("cfg").chance(1, 5) and len(agents) >= 2:
+        orders = [list(agents), list(reversed(agents))]
+        alone = []
+        for o in orders:
+            alone.append([[("nop" if a.name == "nop" else (a.name, tuple(a.parameters))) for a in ja.actions]
+                          for ja in PlanConverter(d).convert_plan(p, path, list(o), should_validate_concurrency_constraint=validate)])
+
+        def mk(o):
+            return lambda: [[("nop" if a.name == "nop" else (a.name, tuple(a.parameters))) for a in ja.actions]
+                            for ja in PlanConverter(d).convert_plan(p, path, list(o),
+                                                                    should_validate_concurrency_constraint=validate)]
+        results, switches = C.concurrent(ctx, [mk(o) for o in orders])
+        for o, r, a in zip(orders, results, alone):
+            if r != ("ok", a):
+                raise Violation("C15/concurrent-conversion-differs", site,
+                                f"agents={o}: two threads converting at once got {C.short(r, 200)}, alone {C.short(a, 200)}")
+        ctx.probes["threaded_checked"] += 1
     # ---- export and re-execute the written file
     out = ctx.rundir / "joint.plan"
     try:
